@@ -192,6 +192,9 @@ func (e *enc) summarise(x *ssa.Call, callee *ssa.Function, args []Term) {
 func (e *enc) havocCall(x *ssa.Call, callee *ssa.Function, args []Term) {
 	e.havoced[fnFull(callee)] = true
 	fi := e.w.frameOf(callee)
+	if fi.fs {
+		e.havocKey(e.fsMem())
+	}
 	for g := range fi.writes {
 		e.havocKey(e.ensureGlobal(g))
 	}
@@ -410,6 +413,9 @@ func (e *enc) modularCall(x *ssa.Call, callee *ssa.Function, ct *Contract, args 
 				e.havocLoc(l)
 			}
 		}
+	}
+	if ct.ModFS {
+		e.havocKey(e.fsMem())
 	}
 	for _, m := range ct.Modifies {
 		if err := e.havocSpecLoc(env, m.E); err != nil {
